@@ -151,7 +151,7 @@ pub fn gen_case(rng: &mut Rng, c02: bool, thorough: bool) -> CrashCase {
   let many = rng.chance(1, if c02 { 40 } else { 30 });
   let cfg = Cfg {
     storage: StorageKind::Fs,
-    profile: *rng.pick(&[Profile::Basic, Profile::Basic, Profile::Nested]),
+    profile: *rng.pick(&[Profile::Basic, Profile::Basic, Profile::Nested, Profile::Rich]),
     positions: rng.chance(1, 2),
     ids: if many { if c02 { 60 + rng.usize(40) } else { 130 + rng.usize(60) } } else { 2 + rng.usize(3) },
     transparent: rng.chance(1, 3),
